@@ -99,10 +99,13 @@ func runPipe(c pipeCfg) pipeObs {
 
 	me := wire.NewNetAddressIPPort(net.ParseIP("10.1.2.3"), 18555, 0)
 	you := wire.NewNetAddressIPPort(net.ParseIP("10.9.9.9"), 8333, 0)
-	nonceCtr += 0x9E3779B97F4A7C15
-	nonce := nonceCtr
+	nonce := nextNonce()
+	var seq, hsStamp atomic.Int64
 	handshake := func() {
 		if c.mode == 6 {
+			// The peer disconnects itself once it has read this message: stamp
+			// "the disconnect request" before it can.
+			hsStamp.Store(seq.Add(1))
 			re.Write(encMsg(wire.NewMsgGetAddr(), btcnet))
 			return
 		}
@@ -138,7 +141,6 @@ func runPipe(c pipeCfg) pipeObs {
 			doneCh[id] = make(chan struct{}, 8)
 		}
 	}
-	var seq atomic.Int64
 	var returned atomic.Int64
 	ret := make(map[int]*atomic.Int64, total)
 	for _, id := range ids {
@@ -260,9 +262,11 @@ func runPipe(c pipeCfg) pipeObs {
 	d := dseq.Load()
 	if c.mode == 6 {
 		// The peer disconnects itself when the handshake fails, possibly before
-		// our own request: "returned before our request" is then not "queued
-		// before the disconnect request".
-		d = 0
+		// our own request: the disconnect request is no earlier than the
+		// moment the remote wrote the offending message.
+		if h := hsStamp.Load(); h != 0 && (d == 0 || h < d) {
+			d = h
+		}
 	}
 	for _, id := range ids {
 		obs.done[id] = len(doneCh[id])
@@ -358,8 +362,7 @@ func runPrestart(inbound bool, n int, fail bool) string {
 	} else {
 		me := wire.NewNetAddressIPPort(net.ParseIP("10.1.2.3"), 18555, 0)
 		you := wire.NewNetAddressIPPort(net.ParseIP("10.9.9.9"), 8333, 0)
-		nonceCtr += 0x9E3779B97F4A7C15
-		re.Write(encMsg(wire.NewMsgVersion(me, you, nonceCtr, 0), btcnet))
+		re.Write(encMsg(wire.NewMsgVersion(me, you, nextNonce(), 0), btcnet))
 		re.Write(encMsg(wire.NewMsgVerAck(), btcnet))
 		want := n
 		rd.waitFor(func(ms []wmsg) bool {
